@@ -711,13 +711,27 @@ const (
 var pointNames = []string{"aw.begin", "fw.writeat", "fw.synced", "aw.docs", "fw.writeat", "fw.synced", "aw.end"}
 
 type docSpec struct {
+	svc    int // the bulk whose service token the document carries (= the bulk that brought it first)
 	id     seq.ID
 	body   []byte
 	tokens []string
 }
 
+// bulk b < 1000: 1..3 new documents.  bulk b >= 1000 overlaps bulk b-1000: it repeats that bulk's documents (same
+// IDs, bytes and tokens - a sender re-sending what was not confirmed yet) FIRST and then brings 1..2 documents of
+// its own, so that duplicates precede new documents inside one bulk.
 func bulkDocs(b int) []docSpec {
+	if b >= 1000 {
+		return append(bulkDocs(b-1000), newDocs(b)...)
+	}
+	return newDocs(b)
+}
+
+func newDocs(b int) []docSpec {
 	n := 1 + b%3
+	if b >= 1000 {
+		n = 1 + b%2
+	}
 	res := make([]docSpec, n)
 	for j := 0; j < n; j++ {
 		pad := strings.Repeat(string(rune('a'+(b+j)%26)), (b*7+j*13)%40)
@@ -725,18 +739,31 @@ func bulkDocs(b int) []docSpec {
 			id:     seq.ID{MID: seq.MID(1_000_000 + b*10 + j), RID: seq.RID(b*1000 + j)},
 			body:   []byte(fmt.Sprintf(`{"service":"b%d","k8s_pod":"d%d_%d","pad":"%s"}`, b, b, j, pad)),
 			tokens: []string{fmt.Sprintf("service:b%d", b), fmt.Sprintf("k8s_pod:d%d_%d", b, j), "_all_:"},
+			svc:    b,
+		}
+		if j%2 == 1 { // documents of one bulk do not all carry the same number of tokens
+			res[j].tokens = append(res[j].tokens, fmt.Sprintf("level:%d", b%7))
 		}
 	}
 	return res
 }
 
+// the blocks of a bulk as a client hands them to the store; the meta header's Ext1 is whatever the client left
+// there: the bundled ingestor's value (b%3 == 0), zero (1) or something arbitrary (2) - the store must not depend on it
 func bulkBlocks(b int) ([]byte, []byte) {
 	dp := frac.NewDocProvider()
 	for _, d := range bulkDocs(b) {
 		dp.Append(d.body, nil, d.id, seq.Tokens(d.tokens...))
 	}
 	docs, metas := dp.Provide()
-	return append([]byte(nil), docs...), append([]byte(nil), metas...)
+	docs, metas = append([]byte(nil), docs...), append([]byte(nil), metas...)
+	switch b % 3 {
+	case 1:
+		disk.DocBlock(metas).SetExt1(0)
+	case 2:
+		disk.DocBlock(metas).SetExt1(uint64(7777 + b))
+	}
+	return docs, metas
 }
 
 func parseInts(s string) []int {
@@ -786,24 +813,41 @@ func childMain(args []string) {
 			}
 			return qpr.IDs.IDs()
 		}
-		hits := q(fmt.Sprintf("service:b%d", b))
-		extra := 0
-		want := map[seq.ID]bool{}
-		for _, d := range docs {
-			want[d.id] = true
+		cache := map[string]map[seq.ID]bool{}
+		ids := func(tok string) map[seq.ID]bool {
+			if r, ok := cache[tok]; ok {
+				return r
+			}
+			r := map[seq.ID]bool{}
+			for _, id := range q(tok) {
+				r[id] = true
+			}
+			cache[tok] = r
+			return r
 		}
-		for _, id := range hits {
-			if want[id] {
-				found[id] = true
-			} else {
-				extra++
+		// every document must be found by its bulk token and by its own token; the bulk token may only lead to the
+		// documents that carry it, a document token only to its document
+		extra, tokenHits := 0, 0
+		for _, d := range docs {
+			if ids(d.tokens[0])[d.id] {
+				found[d.id] = true
+			}
+			if ids(d.tokens[1])[d.id] {
+				tokenHits++
+			}
+			extra += len(ids(d.tokens[1]))
+			if ids(d.tokens[1])[d.id] {
+				extra--
 			}
 		}
-		tokenHits := 0
-		for _, d := range docs {
-			for _, id := range q(d.tokens[1]) {
-				if id == d.id {
-					tokenHits++
+		for tok, svc := range map[string]int{docs[0].tokens[0]: docs[0].svc, docs[len(docs)-1].tokens[0]: docs[len(docs)-1].svc} {
+			want := map[seq.ID]bool{}
+			for _, d := range newDocs(svc) {
+				want[d.id] = true
+			}
+			for id := range ids(tok) {
+				if !want[id] {
+					extra++
 				}
 			}
 		}
@@ -839,6 +883,11 @@ func childMain(args []string) {
 		_, err := fmt.Sscanf(args[4], "%d+%d", &a, &b)
 		must(err)
 		childConcurrent(fm, a, b, say)
+	}
+	if len(args) > 5 && args[5] == "seal" {
+		fm.SealForcedForTests()
+		fm.WaitIdle()
+		say("SEALED")
 	}
 	if args[3] != "-" {
 		var b, point int
@@ -953,6 +1002,7 @@ func parkedOnWriterLock() bool {
 }
 
 type round struct {
+	seal   bool   // after the ingestion of this round the active fraction is sealed (SealForcedForTests)
 	par    [2]int // two bulks appended concurrently (0 = none), see childConcurrent
 	ingest []int
 	crash  int // bulk id or -1
@@ -973,6 +1023,9 @@ func (s scenario) String() string {
 		if r.par[0] > 0 {
 			p = fmt.Sprintf(",p=%d+%d", r.par[0], r.par[1])
 		}
+		if r.seal {
+			p += ",s"
+		}
 		parts = append(parts, fmt.Sprintf("i=%s,c=%s%s", strings.ReplaceAll(vh.JoinInts(r.ingest), ",", "+"), c, p))
 	}
 	return "hist " + strings.Join(parts, " ")
@@ -990,6 +1043,8 @@ func parseScenario(line string) (scenario, error) {
 			switch {
 			case strings.HasPrefix(kv, "i="):
 				r.ingest = parseInts(strings.ReplaceAll(kv[2:], "+", ","))
+			case kv == "s":
+				r.seal = true
 			case strings.HasPrefix(kv, "p="):
 				if _, err := fmt.Sscanf(kv[2:], "%d+%d", &r.par[0], &r.par[1]); err != nil {
 					return s, err
@@ -1012,12 +1067,12 @@ type childResult struct {
 	stderr string
 }
 
-func runChild(dir string, verify, ingest []int, crash string, par [2]int) childResult {
+func runChild(dir string, verify, ingest []int, crash string, par [2]int, seal bool) childResult {
 	self, err := os.Executable()
 	must(err)
 	ctx, cancel := context.WithTimeout(context.Background(), 60*time.Second)
 	defer cancel()
-	cmd := exec.CommandContext(ctx, self, "child", dir, vh.JoinInts(verify), vh.JoinInts(ingest), crash, fmt.Sprintf("%d+%d", par[0], par[1]))
+	cmd := exec.CommandContext(ctx, self, "child", dir, vh.JoinInts(verify), vh.JoinInts(ingest), crash, fmt.Sprintf("%d+%d", par[0], par[1]), map[bool]string{true: "seal", false: "-"}[seal])
 	var so, se bytes.Buffer
 	cmd.Stdout, cmd.Stderr = &so, &se
 	err = cmd.Run()
@@ -1076,6 +1131,7 @@ func runScenario(s scenario) (findings []finding, tagsOut []string, obs sysObs) 
 	debris := "" // class of the earliest crash that left debris and was followed by ingestion
 	pendingDebris := ""
 	concurrent := false // two bulks were appended concurrently earlier in the history
+	overlap := false    // a bulk repeated documents of an earlier bulk before bringing new ones
 	check := func(res childResult, phase string) bool {
 		cls := debris
 		if cls == "" {
@@ -1083,6 +1139,9 @@ func runScenario(s scenario) (findings []finding, tagsOut []string, obs sysObs) 
 		}
 		if cls == "" && concurrent {
 			cls = "concurrent-bulks"
+		}
+		if cls == "" && overlap {
+			cls = "overlapping-bulks"
 		}
 		if cls == "" {
 			cls = "no-debris"
@@ -1142,11 +1201,20 @@ func runScenario(s scenario) (findings []finding, tagsOut []string, obs sysObs) 
 		if pendingDebris != "" && (len(r.ingest) > 0 || r.crash >= 0) && debris == "" {
 			debris = pendingDebris
 		}
+		for _, b := range r.ingest {
+			if b >= 1000 {
+				overlap = true
+				tagsOut = append(tagsOut, "overlapping-bulk")
+			}
+		}
+		if r.seal {
+			tagsOut = append(tagsOut, "seal")
+		}
 		if r.par[0] > 0 {
 			tagsOut = append(tagsOut, "concurrent-bulks")
 			concurrent = true
 		}
-		res := runChild(dir, known(), r.ingest, crash, r.par)
+		res := runChild(dir, known(), r.ingest, crash, r.par, r.seal)
 		for _, l := range res.lines {
 			if strings.HasPrefix(l, "CONCURRENT") {
 				tagsOut = append(tagsOut, strings.ReplaceAll(l, " ", ":"))
@@ -1201,7 +1269,7 @@ func runScenario(s scenario) (findings []finding, tagsOut []string, obs sysObs) 
 			}
 		}
 	}
-	res := runChild(dir, known(), nil, "-", [2]int{})
+	res := runChild(dir, known(), nil, "-", [2]int{}, false)
 	obs.up = check(res, "final restart")
 	obs.bulks = known()
 	for _, l := range res.lines {
@@ -1284,6 +1352,9 @@ func siteOf(class string) string {
 	if strings.HasSuffix(class, "/concurrent-bulks") {
 		return "frac/active_writer.go:Write"
 	}
+	if strings.HasSuffix(class, "/overlapping-bulks") {
+		return "frac/active_indexer.go:appendWorker"
+	}
 	if strings.HasSuffix(class, "/no-debris") && !strings.HasPrefix(class, "startup-fails") {
 		return "frac/active.go:Append" // no crash left anything behind: the write / index / fetch path itself
 	}
@@ -1314,6 +1385,11 @@ func oracleCrashRestart(o vh.Opts, rng *vh.RNG, rep *vh.Report, replayOps []stri
 			scenario{[]round{{par: [2]int{1, 2}, crash: -1}, {crash: -1}}},
 			scenario{[]round{{ingest: []int{3}, par: [2]int{4, 5}, crash: -1}, {ingest: []int{6}, crash: -1}}},
 			scenario{[]round{{par: [2]int{8, 7}, crash: 9, point: 5, k: 10}, {ingest: []int{10}, crash: -1}}},
+			// bulks that repeat documents of an earlier bulk before their own (partial re-send), restarts, a crash, sealing
+			scenario{[]round{{ingest: []int{1, 1001}, crash: -1}, {ingest: []int{2}, crash: -1}}},
+			scenario{[]round{{ingest: []int{3, 4, 1004}, crash: 5, point: 5, k: 35}, {ingest: []int{1003}, crash: -1}}},
+			scenario{[]round{{ingest: []int{6, 1006}, crash: -1, seal: true}, {ingest: []int{7, 1007}, crash: -1}}},
+			scenario{[]round{{ingest: []int{2, 5}, crash: -1}, {ingest: []int{1002}, crash: -1, seal: true}, {ingest: []int{8}, crash: -1}}},
 			// torn meta tail with a complete header, restart only
 			scenario{[]round{{ingest: []int{1}, crash: 2, point: 5, k: 33}}},
 			scenario{[]round{{crash: 1, point: 5, k: 40}, {crash: -1}}},
@@ -1352,6 +1428,10 @@ func oracleCrashRestart(o vh.Opts, rng *vh.RNG, rep *vh.Report, replayOps []stri
 					rd.par = [2]int{next, next + 1}
 					next += 2
 				}
+				if len(rd.ingest) > 0 && rng.Chance(1, 3) {
+					rd.ingest = append(rd.ingest, 1000+rd.ingest[rng.Intn(len(rd.ingest))])
+				}
+				rd.seal = rng.Chance(1, 6)
 				if rng.Chance(2, 3) {
 					rd.crash, rd.point, rd.k = next, rng.Range(1, 7), -1
 					next++
